@@ -368,9 +368,20 @@ def attach_c05():
             violation("C05", f"suite:accepts:{rk}", f"Quantity({str(e)[:120]}) accepted but the reference refuses ({rk})", None)
             return
         v, vec = rv
+        try:  # double-precision instability filter (cancellation in the test's own numbers)
+            with mpmath.workdps(16):
+                v16 = c05.RefEval(LeafTrust()).ev(e)[0]
+            if mpmath.isfinite(v) and mpmath.isfinite(v16) and abs(v - v16) > mpmath.mpf("1e-12") * max(abs(v), abs(v16)):
+                hit("C05_reference_undecided")
+                return
+        except Exception:  # pylint: disable=broad-except
+            pass
         lv = c05.sym2mp(units_ref.observed_si_value(self)) if dimension is None else None
         if dimension is None and lv is not None and mpmath.isfinite(v) and mpmath.isfinite(lv):
-            if abs(v - lv) > mpmath.mpf("1e-9") * max(abs(v), abs(lv)):
+            if (v == 0) != (lv == 0):
+                hit("C05_reference_undecided")  # a sum of the test's 15-digit floats cancels on one side only
+                return
+            if abs(v - lv) > mpmath.mpf("1e-6") * max(abs(v), abs(lv)):   # the tests feed 15-digit floats through sums that cancel
                 violation("C05", "suite:value", f"Quantity({str(e)[:120]}): SI value {lv} vs reference {v}", None)
                 return
             if v != 0:
